@@ -69,7 +69,7 @@ func ctlFamily(c *core.Ctx) {
 		c.Oblige("correspondence", "control-transfer probes are accepted by parse+generate", false, err.Error())
 		return
 	}
-	prog, err := probe.Build([]probe.File{f}, tgen.Helpers)
+	prog, err := buildProbe([]probe.File{f})
 	if err != nil {
 		c.Oblige("correspondence", "control-transfer probes compile", false, prog.BuildLog)
 		prog.Close()
@@ -86,7 +86,7 @@ func ctlFamily(c *core.Ctx) {
 			pc = append(pc, probe.Case{Template: p.name, Args: a})
 		}
 	}
-	res, err := prog.Run(pc)
+	res, err := runProbe(c, prog, pc, func(int) string { return sb.String() })
 	if err != nil {
 		c.Oblige("correspondence", "control-transfer probes run", false, err.Error())
 		return
